@@ -309,3 +309,17 @@ Example ex_write_fails : snd (step ex_wk EEndF) =
     [OFlushF [(ex_a, Some (1, 10, 946684800%Z)); (ex_b, Some (2, 21, 946684800%Z))]; ORes false; ORes false]
   /\ vv (wst (fst (step ex_wk EEndF))) ex_b = Some (2, 21).
 Proof. vm_compute. split; reflexivity. Qed.
+
+(* The end-to-end chain (Props/Chain_Client.v: Poll.v's service = client o handler o database
+   models) is built and its assumptions are checked with every C11 run. *)
+From Setec Require Props.Chain_Client.
+Print Assumptions Chain_Client.chain_answer.
+Print Assumptions Chain_Client.chain_answer_any.
+Print Assumptions Chain_Client.chain_denied.
+Print Assumptions Chain_Client.chain_denied_poll.
+Print Assumptions Chain_Client.chain_srv_step.
+Print Assumptions Chain_Client.chain_fresh.
+Print Assumptions Chain_Client.chain_fresh_exact_partial.
+Print Assumptions Chain_Client.chain_translate.
+Print Assumptions Chain_Client.chain_conditional_silent.
+Print Assumptions Chain_Client.chain_not_changed_is_silent.
